@@ -25,8 +25,8 @@ const (
 
 // Oracle describes one abstract class of the byte-slice parameter.
 type Oracle interface {
-	Len() int                                   // concrete length of the slice
-	Byte(i int) (uint8, bool)                   // concrete value of byte i if the class fixes it
+	Len() int                                           // concrete length of the slice
+	Byte(i int) (uint8, bool)                           // concrete value of byte i if the class fixes it
 	Word(off, width int) (ref *big.Int, r Rel, ok bool) // relation of LE word at off to its reference constant
 }
 
@@ -36,10 +36,10 @@ type conc struct {
 	typ types.Type
 }
 type boolv struct{ b bool }
-type slicev struct{ off int }       // the parameter slice re-sliced from off
-type ptrv struct {                  // pointer to element
+type slicev struct{ off int } // the parameter slice re-sliced from off
+type ptrv struct {            // pointer to element
 	slice bool
-	off   int        // byte offset (slice)
+	off   int // byte offset (slice)
 	glob  *ssa.Global
 	idx   int
 }
